@@ -15,6 +15,7 @@
 import DfolsVerif.Proofs.Radius
 import DfolsVerif.Gen.RadiusSrc
 import DfolsVerif.Spec.RadiusSrc
+import DfolsVerif.Accept.IterAcc
 
 namespace Dfols
 namespace C18
@@ -124,6 +125,14 @@ theorem C18_reduce_progress (p : TRParams ℝ) (rhobeg rhoend delta rho : ℝ) (
     (hgt : rhoend < rho) (ha1 : 1 / 250 ≤ p.alpha1) (ha1' : p.alpha1 < 1) :
     (reduceRho realRadOps p rho rhoend).2 < rho :=
   (reduceRho_inv p rhobeg rhoend delta rho hi hgt ha1 (le_of_lt ha1')).2.2 ha1'
+
+/-- **no stall (L2, floats)**: in every event list accepted by `IterAcc` (every iteration evaluates,
+    strictly reduces rho, restarts or exits; `reduce_rho` strictly decreases the observed double rho and
+    keeps it ≥ rhoend), the number of consecutive evaluation-free, restart-free iterations is at most the
+    number of doubles between rhoend and the rho the streak started from: the main loop cannot spin
+    without evaluating.  (The pinned tree violated the acceptor's `reduce_rho` rule and did spin.) -/
+theorem C18_no_stall {evs : List IterAcc.IEv} {s : IterAcc.St} (h : IterAcc.accept evs = .ok s) (hs : s.streak ≠ 0) :
+    (s.streak : Int) ≤ s.startKey - s.endKey := IterAcc.no_stall h hs
 
 /-! ### why the hypotheses are needed -/
 
